@@ -28,7 +28,8 @@ r=re.findall(r'C\d\d',p); print(r[0] if r else 'C00')")
     ENVV=$(python3 -c "
 import json
 try:
-    m=json.load(open('$M/meta.json')); print(m.get('env','') or '')
+    import re
+    m=json.load(open('$M/meta.json')); print(' '.join(t for t in str(m.get('env','') or '').split() if re.match(r'^[A-Z][A-Z0-9_]*=[^ ]+$', t)))
 except Exception: print('')
 ")
     env $ENVV cargo test --offline $FEAT --test demo >>$LOG 2>&1; D1=$?
